@@ -1,0 +1,45 @@
+//go:build verif
+
+package otto
+
+// Verification seams, compiled in only with the "verif" build tag.
+// They add observation points; they do not change interpreter behaviour.
+
+// VerifStepKind says which evaluator site reported a step.
+type VerifStepKind int
+
+// Step kinds reported to VerifStep.
+const (
+	VerifStepStatement VerifStepKind = iota
+	VerifStepExpression
+	VerifStepFor
+	VerifStepWhile
+	VerifStepDoWhile
+	VerifStepForIn
+)
+
+// VerifStep, when non-nil, is called at the top of every statement and
+// expression evaluation (immediately before the interrupt poll) and at the
+// head of every loop iteration. It must be set before any runtime runs.
+var VerifStep func(o *Otto, kind VerifStepKind, node interface{})
+
+func (rt *runtime) verifStep(kind int, node interface{}) {
+	if VerifStep != nil {
+		VerifStep(rt.otto, VerifStepKind(kind), node)
+	}
+}
+
+// VerifScopeDepth returns the number of execution contexts currently on the
+// runtime's scope chain (0 when the runtime is at rest).
+func (o Otto) VerifScopeDepth() int {
+	n := 0
+	for sc := o.runtime.scope; sc != nil; sc = sc.outer {
+		n++
+	}
+	return n
+}
+
+// VerifLabelCount returns the number of pending statement labels.
+func (o Otto) VerifLabelCount() int {
+	return len(o.runtime.labels)
+}
